@@ -346,6 +346,9 @@ func (e *Evaluator) evalAssignment(assignment *parser.AssignmentStmt) error {
 	if err != nil {
 		return err
 	}
+	// Basic values are copied on assignment, like on declaration, so that
+	// the target never shares a cell with e.g. the built-in err/errmsg.
+	val = copyOrRef(val)
 	switch n := assignment.Target.(type) {
 	case *parser.Var:
 		e.scope.update(n.Name, val)
